@@ -13,6 +13,7 @@ NOT_DECIDED = [
     "agreement with pkg_install on inputs outside the stated rule",
 ]
 CONFIG_SENSITIVE = False
+DESUGAR = True
 
 DV = "dewey::DeweyVersion::new"
 
@@ -166,14 +167,23 @@ def run(ctx):
         rs = rows.get(key, [])
         return rs
 
-    # digits
+    def parse_failed(r):
+        """the row's path assumed that parse::<i64>() of the digit run failed (only possible on overflow: outside the quantifier's 18 digits)"""
+        for c in r["p"].conds():
+            if c.term[0] == "discr" and is_call(strip_refs(c.term[1]), "str>::parse"):
+                return c.fact == ("eq", 1) or (c.fact[0] == "ne" and 0 in c.fact[1])
+        return False
+
+    # digits (with Option/Result combinators evaluated, `parse().unwrap_or(k)` is two rows: parsed / overflowed)
     rs = one(("digits",))
-    ok = len(rs) == 1
-    if ok:
-        r = rs[0]
+    ok = 1 <= len(rs) <= 2 and sum(1 for r in rs if not parse_failed(r)) == 1
+    for r in rs if ok else []:
         pv = r["pushes"]
-        ok = len(pv) == 1 and mentions(pv[0], lambda s: is_call(s, "str>::parse") and "i64" in str(s[2])) and mentions(pv[0], lambda s: is_call(s, "::take_while")) \
-            and r["rev"] is None and r["adv"] is not None and len(r["adv"]) == 1 and is_call(r["adv"][0], "String::len", "str>::len") and mentions(r["adv"][0], lambda s: is_call(s, "::take_while"))
+        okadv = r["rev"] is None and r["adv"] is not None and len(r["adv"]) == 1 and is_call(r["adv"][0], "String::len", "str>::len") and mentions(r["adv"][0], lambda s: is_call(s, "::take_while"))
+        if parse_failed(r):
+            ok = ok and okadv and len(pv) == 1 and const_int(pv[0]) is not None
+            continue
+        ok = ok and len(pv) == 1 and mentions(pv[0], lambda s: is_call(s, "str>::parse") and "i64" in str(s[2])) and mentions(pv[0], lambda s: is_call(s, "::take_while")) and okadv
         ok = ok and mentions(pv[0], lambda s: s[0] == "const" and isinstance(s[2], tuple) and s[2][0] == "fn" and s[2][1].endswith("is_ascii_digit"))
     ctx.check(ok, "D1-TOK-TABLE", DV, "row=digits", "digit run -> push parse::<i64>(run), advance len(run)", "the digit-run row is not `push the run's i64 value, advance by the run's length`", fn_span(body))
     # separators
@@ -198,12 +208,19 @@ def run(ctx):
     # nb
     nb = sp["revision_marker"]
     rs = one(("lit", nb))
-    ok = len(rs) == 1
+    ok = 1 <= len(rs) <= 2 and sum(1 for r in rs if not parse_failed(r)) == 1
+    rs_all = rs
+    rs = [r for r in rs if not parse_failed(r)] if ok else rs
+    for r in [r for r in rs_all if parse_failed(r)] if ok else []:
+        # no digits after nb (or an overflowing run): revision 0, same advance
+        ok = ok and not r["pushes"] and r["rev"] is not None and const_int(r["rev"]) == 0 and r["adv"] is not None and len(r["adv"]) == 2 and const_int(r["adv"][0]) == len(nb)
     if ok:
         r = rs[0]
         rv = r["rev"]
+        desug = rv is not None and not is_call(rv, "Result::unwrap_or", "Result::unwrap_or_default")
         okrev = rv is not None and mentions(rv, lambda s: is_call(s, "str>::parse") and "i64" in str(s[2])) and mentions(rv, lambda s: is_call(s, "::take_while")) and \
-            is_call(rv, "Result::unwrap_or", "Result::unwrap_or_default") and (len(call_args(rv)) < 2 or const_int(call_args(rv)[1]) == 0)
+            ((is_call(rv, "Result::unwrap_or", "Result::unwrap_or_default") and (len(call_args(rv)) < 2 or const_int(call_args(rv)[1]) == 0))
+             or (desug and len(rs_all) == 2 and isinstance(strip_refs(rv), tuple) and strip_refs(rv)[0] == "field" and strip_refs(rv)[1][0] == "downcast" and strip_refs(rv)[1][2] == "Ok"))
         # the digit run is taken from the text right after the marker
         src = [s for s in subterms(rv) if is_index_call(s) and strip_refs(call_args(s)[0]) == ("param", 1)] if rv is not None else []
         okfrom = False
